@@ -211,7 +211,7 @@ def replay(case):
 
 
 def shards(tier):
-    n = 40 if tier == 'quick' else 3000
+    n = 300 if tier == 'quick' else 5000
     return [('exhaustive', 0)] + [('random', n)] * 15
 
 
